@@ -67,6 +67,38 @@ def body_lset(cube, **kw):
         return _run_lset(n, pq, rs, packed=cube.get('packed', False))
 
 
+def body_linh(cube, **kw):
+    """Edges on the inheritance language: step s redefined (absent / no reaches / -> / +>) at each level."""
+    from maltoolbox.attackgraph import AttackGraph
+    from xh.g import idx
+    from xh.h_c03 import wellformed_cs
+    cs = (idx(kw['c0'], 3), idx(kw['c1'], 4), idx(kw['c2'], 4), idx(kw['c3'], 4))
+    l0, l1, l2 = bool(kw['l0']), bool(kw['l1']), bool(kw['l2'])
+    if not wellformed_cs(cs):
+        return ''
+    with notrace(), reclimit():
+        spec = langs.L_INH(cs)
+        lg, lcf = langs.build_lang(spec)
+        types = ['Am', 'G1', 'G2', 'O']
+        m, assets = mb.build_model(lcf, types)
+        rel = langs.rel_for(spec, types)
+        if l0:
+            mb.add_link(m, lcf, 'L', 'ps', [assets[0], assets[1]], 'os', [assets[3]])
+            rel.add_link('ps', 0, 'os', 3); rel.add_link('ps', 1, 'os', 3)
+        if l1:
+            mb.add_link(m, lcf, 'L', 'ps', [assets[2]], 'os', [assets[3]]); rel.add_link('ps', 2, 'os', 3)
+        if l2:
+            mb.add_link(m, lcf, 'L2', 'as2', [assets[2]], 'os2', [assets[3]]); rel.add_link('as2', 2, 'os2', 3)
+        g = AttackGraph(lg, m)
+        r = mb.check_edges(g, assets, rel, lambda t: {n: (d['reaches']['stepExpressions'] if d['reaches'] else [])
+                                                      for n, d in langs.ref_fold(spec, t).items()})
+        if r:
+            return r
+        g2 = AttackGraph(lg, m)      # a second generation from the same language graph must give the same edges
+        return mb.check_edges(g2, assets, rel, lambda t: {n: (d['reaches']['stepExpressions'] if d['reaches'] else [])
+                                                          for n, d in langs.ref_fold(spec, t).items()})
+
+
 def queries(tier):
     qs = []
 
@@ -91,6 +123,11 @@ def queries(tier):
         qs.append(mk('lset2', 2, None, False, 900, split=['pq00', 'pq01']))
         qs.append(mk('lset3', 3, 5, False, 1700, split=['pq00', 'pq01', 'pq02', 'pq10']))
         qs.append(mk('lset3p', 3, 5, True, 1700, split=['pq00', 'pq01', 'pq02', 'pq10']))
+    ps = [I('c0', 0, 2), I('c1', 0, 3), I('c2', 0, 3), I('c3', 0, 3), B('l0'), B('l1'), B('l2')]
+    qs.append(Query(name='linh', body=body_linh, params=ps, split=['c0', 'c1'], timeout=600,
+                    witnesses=[({}, {'c0': 1, 'c1': 3, 'c2': 3, 'c3': 3, 'l0': True, 'l1': True, 'l2': True})],
+                    bound='language family F_INH (P <- Am <- {G1,G2}, O; step s absent / without reaches / -> / +> at each of the 4 levels; variable, subType, '
+                          'extended and overridden steps); one asset of each concrete type, every subset of 3 links (one with two members in a field); generated twice'))
     return qs
 
 
